@@ -124,8 +124,16 @@ def explore_spaces(mod, tier, seed, jobs, deadline_s, report):
     spaces = mod.spaces(tier, seed)
     _MOD, _SPACES, _TIER, _SEED = mod, spaces, tier, seed
     chunk = getattr(mod, "CHUNK", 500)
-    tasks = []
+    # sub-spaces a module wants executed in freshly forked workers (one chunk per worker process, forked from this parent, which has
+    # parsed nothing): {name: chunk size}.  For two-call histories whose FIRST call must be the first use of some process-wide object.
+    fresh = dict(getattr(mod, "FRESH_PROCESS_SUBSPACES", {}) or {})
+    tasks, fresh_tasks = [], []
     for si, sp in enumerate(spaces):
+        if sp.name in fresh:
+            c = fresh[sp.name]
+            for lo in range(0, sp.size, c):
+                fresh_tasks.append((si, lo, min(sp.size, lo + c)))
+            continue
         c = max(1, min(chunk, -(-sp.size // (jobs * 4)) or 1))
         for lo in range(0, sp.size, c):
             tasks.append((si, lo, min(sp.size, lo + c)))
@@ -134,28 +142,31 @@ def explore_spaces(mod, tier, seed, jobs, deadline_s, report):
     t0 = time.time()
     ctx = mp.get_context("fork")
     hit_deadline = False
-    with ctx.Pool(jobs, maxtasksperchild=getattr(mod, "TASKS_PER_CHILD", 400)) as pool:
-        it = pool.imap_unordered(_work, tasks)
-        for _ in range(len(tasks)):
-            remaining = deadline_s - (time.time() - t0)
-            if remaining <= 0:
-                hit_deadline = True
-                break
-            try:
-                p = it.next(timeout=remaining)
-            except mp.TimeoutError:
-                hit_deadline = True
-                break
-            if "error" in p:
+    for tlist, per_child in ((fresh_tasks, 1), (tasks, getattr(mod, "TASKS_PER_CHILD", 400))):
+        if not tlist or hit_deadline:
+            continue
+        with ctx.Pool(jobs, maxtasksperchild=per_child) as pool:
+            it = pool.imap_unordered(_work, tlist)
+            for _ in range(len(tlist)):
+                remaining = deadline_s - (time.time() - t0)
+                if remaining <= 0:
+                    hit_deadline = True
+                    break
+                try:
+                    p = it.next(timeout=remaining)
+                except mp.TimeoutError:
+                    hit_deadline = True
+                    break
+                if "error" in p:
+                    pool.terminate()
+                    raise InfraError(p["error"])
+                report.merge_partial(p)
+                done[p["si"]] += p["hi"] - p["lo"]
+                for s_ in p["samples"]:
+                    if len(report.samples) < MAX_SAMPLES:
+                        report.samples.append(s_)
+            if hit_deadline:
                 pool.terminate()
-                raise InfraError(p["error"])
-            report.merge_partial(p)
-            done[p["si"]] += p["hi"] - p["lo"]
-            for s in p["samples"]:
-                if len(report.samples) < MAX_SAMPLES:
-                    report.samples.append(s)
-        if hit_deadline:
-            pool.terminate()
     for si, sp in enumerate(spaces):
         d = sp.describe()
         d["executed"] = done[si]
